@@ -219,7 +219,10 @@ def one_case(run, driver, rng, reuse=False, given=None):
         if k < len(med):
             c = med[k]
             ok = (c["x"].shape == (len(rep_ids), 1) and np.all(c["x"] == 1) and c["fit_intercept"] in (True,)
-                  and c["w"] is not None and sorted(c["w"].tolist()) == sorted(float(w) for _, w in rw)
+                  and c["w"] is not None and len(c["w"]) == len(rw) and float(np.sum(c["w"])) > 0
+                  # the weights are the baselines + 1 up to a common factor (normalising them is not a change of the median)
+                  and all(abs(a - b) <= 1e-12 for a, b in zip(sorted((c["w"] / np.sum(c["w"])).tolist()),
+                                                              sorted(float(w / sum(x for _, x in rw)) for _, w in rw)))
                   and all(C.close(a, b, Fraction(1, 10**12)) for a, b in zip(sorted(c["y"].tolist()), sorted(float(r) for r, _ in rw))))
             if not ok:
                 run.violation("the median fit is not the intercept-only regression of the relative change weighted by baseline + 1",
